@@ -17,7 +17,7 @@ import (
 func init() { runners["C17"] = runner{run: runC17, replay: nil} }
 
 func runC17(c *Ctx) {
-	c.Res.Rule = "race-detector soak (go build -race): N in {2, 8, 32} goroutines x GOMAXPROCS in {1, 4, 16}, each goroutine running a deterministic mix of decode / validate / mutate / encode / print / credential helpers / IssueUserJWT / user claims with time zones, time ranges and source networks not seen before in the process (first-use of lazily initialised shared state happens concurrently: the concurrent phase runs BEFORE the sequential reference) on its OWN claims objects (decoded from the SAME token text) and read-only queries (DidSign, IsClaimRevoked, IsRevoked, HasExportContainingSubject, HashID, ClaimType, ExpectedPrefixes, String, GetTags, Keys, GetScope, Contains, HasEmptyPermissions) on SHARED objects; per-goroutine transcripts must equal a sequential run of the same scripts and the race detector must stay silent. non-trivial = operations executed under the detector (counted by the soak program)."
+	c.Res.Rule = "race-detector soak (go build -race): N in {2, 8, 32} goroutines x GOMAXPROCS in {1, 4, 16}, each goroutine running a deterministic mix of decode / validate / mutate / encode / print / credential helpers / IssueUserJWT / user claims with time zones, time ranges and source networks not seen before in the process / accounts whose imports embed a fresh activation token (first-use of lazily initialised shared state happens concurrently: the concurrent phase runs BEFORE the sequential reference) on its OWN claims objects (decoded from the SAME token text) and read-only queries (DidSign, IsClaimRevoked, IsRevoked, HasExportContainingSubject, HashID, ClaimType, ExpectedPrefixes, String, GetTags, Keys, GetScope, Contains, HasEmptyPermissions) on SHARED objects; per-goroutine transcripts must equal a sequential run of the same scripts and the race detector must stay silent. non-trivial = operations executed under the detector (counted by the soak program)."
 	bin := os.Getenv("VERIF_RACE_BIN")
 	if bin == "" {
 		bin = "/verif/.build/jwtrace"
@@ -73,7 +73,7 @@ func runC17(c *Ctx) {
 		}
 	}
 	c.Res.Extra["operations_under_race_detector"] = total
-	c.Sample(map[string]interface{}{"goroutines": 32, "gomaxprocs": 16, "rounds": rounds, "script": "see racesoak/main.go: seven operation mixes rotated over goroutine and round"})
+	c.Sample(map[string]interface{}{"goroutines": 32, "gomaxprocs": 16, "rounds": rounds, "script": "see racesoak/main.go: eight operation mixes rotated over goroutine and round"})
 }
 
 func firstN(s string, n int) string {
